@@ -1,5 +1,6 @@
 """C16 - region slicing follows Python slice semantics on whole samples."""
 
+import contextlib
 import math
 import sys
 from fractions import Fraction
@@ -93,17 +94,20 @@ def check_threads(case, rec):
                 wrong.append(ab)
                 return
 
+    from ..common import preempt_every_line
+
     old = sys.getswitchinterval()
     sys.setswitchinterval(1e-6)
     try:
-        ts = [threading.Thread(target=work, args=(ab,)) for ab in jobs_]
-        for t in ts:
-            t.start()
-        for t in ts:
-            t.join(60)
+        with (preempt_every_line() if case.get("preempt") else contextlib.nullcontext()):
+            ts = [threading.Thread(target=work, args=(ab,)) for ab in jobs_]
+            for t in ts:
+                t.start()
+            for t in ts:
+                t.join(120)
     finally:
         sys.setswitchinterval(old)
-    rec.note(case, True, {"region_sliced_by_parallel_threads"}, out="ok")
+    rec.note(case, True, {"region_sliced_by_parallel_threads"} | ({"threads_preempted_at_every_line"} if case.get("preempt") else set()), out="ok")
     if wrong:
         raise Violation(f"region[{wrong[0][0]}:{wrong[0][1]}] returned other samples while other threads were slicing the same region", case)
 
@@ -245,6 +249,8 @@ def explicit_cases():
         dict(base, start=0.0, view="samples", a=-1, b=None), dict(base, start=0.3, view="samples", a=-100, b=3),
         dict(base, N=40, threads=[[0, 10], [5, 30], [10, 20], [1, 39]], n=4000),
         dict(base, N=12, sw=1, ch=1, threads=[[0, 6], [6, 12]], n=6000),
+        dict(base, N=40, threads=[[0, 10], [5, 30], [0, 10], [5, 30]], n=300, preempt=True),
+        dict(base, N=12, sw=1, ch=1, threads=[[0, 6], [6, 12], [3, 9]], n=300, preempt=True),
         dict(base, view="seconds", a={"num": ["Fraction", 0.5]}, b=None), dict(base, view="seconds", a=0.1, b={"num": ["np.float32", 0.5]}),
         dict(base, view="seconds", a={"num": ["Decimal", 0.2]}, b=0.6), dict(base, view="seconds", a={"num": ["np.float16", 0.25]}, b=None),
         dict(base, view="seconds", a={"num": ["np.int64", 0]}, b=None), dict(base, view="samples", a={"num": ["np.int64", 2]}, b=5),
